@@ -10,9 +10,12 @@ LEAN_MODULES = ["Ecal.Props.C09"]
 RULE = ("one case = one schedule of the real pool under the hook scheduler (go/cmd/harness/c09sched.go): "
         "directed schedules (lost-wake-up windows after the empty Pop / after L.Lock / after the predicate check, "
         "kill vs. wait, resize up/down during bursts, resize while an earlier shrink is still carried out (over-kill / under-shoot / waiting shrink), "
-        "JoinAll after a burst, WaitAll while a task runs) x workers {1,2,4}; "
+        "resize / AddTask while a JoinAll is carried out, SetWorkerCount(0) with a backlog and back, a running task waiting for the start of a queued one, "
+        "a task adding tasks from Run, JoinAll after a burst, WaitAll while a task runs) x workers {1,2,4}; a family on a real engine.Processor "
+        "(engine.TaskQueue, rule actions injecting child events from inside Run, AddEventAndWait); "
         "randomised schedules (seeded yield/sleep/park decisions at every park point, per-thread priorities), workers 1..16, "
-        "programs of AddTask (single, burst, concurrent, background), SetWorkerCount up/down (wait or not), WaitAll, JoinAll; "
+        "programs of AddTask (single, burst, concurrent, background, nested from Run, dependent pairs), SetWorkerCount up/down/0 (wait or not, "
+        "two concurrent callers), WaitAll, JoinAll (also concurrent with adds); "
         "thorough: delay-bounded systematic enumeration for <=2 workers, <=3 tasks. Compared: the Go monitors "
         "(tasks added/done, State() at quiescence, stuck detection from hook states, per-task execution counts, WaitAll/JoinAll "
         "return vs completion stamps, final worker count) against the monitors the Lean model computes by REPLAYING the recorded "
@@ -23,7 +26,15 @@ TRUSTED = [
     "hook call sites in engine/pool/threadpool.go (hooks/C09.patch, add-only, active with build tag verif) sit where the model's transitions are; "
     "records written inside queueLock / workerMapLock / L are ordered exactly, the others are ordered by the validator's lazy/alternative rules (Drivers/C09.lean header)",
     "sync.Mutex / sync.Cond behave as specified (mutual exclusion; Wait = atomically enqueue and unlock; Signal wakes one waiter, Broadcast all); "
-    "sequentially consistent execution (the unsynchronised read of workerIdleMap at the end of SetWorkerCount is outside the model)",
+    "sequentially consistent execution (thorough tier runs under the race detector; since 910444b no race is reported in engine/pool)",
+    "critical sections are atomic steps of the model: that the lock nesting is acyclic (L -> queueLock, L -> workerMapLock, workerMapLock -> queueLock) and the "
+    "shape of the sync skeleton (Signal under L after Push; Size() and workerKill re-read under L before Wait; SetWorkerCount decides in one workerMapLock "
+    "section from len(workerMap)-workerExiting) are re-extracted from threadpool.go on every run (lean/Ecal/Gen/C09.lean, three-valued) and tied to the "
+    "model's Variant by `decide`",
+    "TooManyCallback / TooFewCallback (called under queueLock+RegulationLock / RegulationLock) are not modelled: a callback that calls back into the pool deadlocks; "
+    "the engine's callbacks only print",
+    "the task queue is an abstract bag (Pop returns any queued task); DefaultTaskQueue's FIFO order is checked by the trace validator, engine.TaskQueue's "
+    "priority / per-root pick and Clear() are not part of C09 (C10)",
     "callers are over-approximated: workerKill set by SetWorkerCount(down) is any positive value, polling broadcasts may happen at any time",
 ]
 
@@ -31,7 +42,10 @@ ASSUMPTIONS = [
     "fairness (F1): a goroutine whose next step stays enabled is eventually scheduled; a goroutine blocked on a mutex released infinitely often eventually gets it",
     "termination (F2): every task's Run returns",
     "'eventually started' = safety (task_multiset) + no stuck state (no_stuck_task / resize_converges) + F1 + F2; the step from no-stuck-state to real time is not proved",
-    "resize_target is stated for SetWorkerCount calls made while no JoinAll is being carried out (no worker on the exit-when-drained path) and holds until the next resize / JoinAll starts",
+    "resize_target holds until the next resize / JoinAll starts; a SetWorkerCount(n>0) that overlaps a JoinAll overrides it (workerKill leaves -1): that JoinAll then only returns after a later SetWorkerCount(0) — contradictory concurrent commands, not judged",
+    "OUTSIDE THE QUANTIFIER ('while the pool has at least one worker'): WaitAll on a pool without workers returns at once with tasks queued (hypothesis 0 < workerCount of waitall_sound); "
+    "JoinAll on a pool without workers but with queued tasks never returns (ran: SetWorkerCount(0,true) with a backlog, then JoinAll: spins) — termination of JoinAll / WaitAll is not claimed, only that their exit guards are sound",
+    "the RETURN of SetWorkerCount(n>0, …) is not modelled: its trailing loop waits until some worker is idle, i.e. on a saturated pool until the backlog is drained (ran: 1 busy worker, SetWorkerCount(1,false) returned after the backlog); the property constrains the worker COUNT (resize_target, resize_converges), not the call's return",
 ]
 
 META = dict(
@@ -72,8 +86,8 @@ def breach(mon):
 
 def compare(go_text, model_text):
     """returns (ok, reason)"""
-    if " | " not in go_text:
-        return False, "no result from the real pool: " + go_text[:120]
+    if " | " not in go_text or go_text.split(" ", 1)[0] in ("CRASH", "HANG", "PANIC", "MISSING-RESULT"):
+        return False, "no result from the real pool: " + go_text[:200]
     gm = parse_monitors(go_text.split(" | ", 1)[0])
     b = breach(gm)
     if model_text.startswith("INVALID") or model_text.startswith("bad") or model_text.startswith("MISSING"):
@@ -82,6 +96,8 @@ def compare(go_text, model_text):
     diffs = []
     for k in FIELDS:
         if k == "rs" and gm.get("rs") == "na":
+            if mm.get("rs") == "bad":
+                diffs.append("rs: the model's final worker count differs from the last decided SetWorkerCount target")
             continue
         if gm.get(k) != mm.get(k):
             diffs.append(f"{k}: go={gm.get(k)} model={mm.get(k)}")
@@ -101,14 +117,51 @@ def decode(p):
     return p
 
 
+GEN = os.path.join(checklib.LEAN, "Ecal", "Gen", "C09.lean")
+
+
+def extract(ctx, binp):
+    """regenerate lean/Ecal/Gen/C09.lean from the tree under test; returns (facts, notes)"""
+    if os.path.exists(GEN):
+        os.remove(GEN)
+    env = dict(checklib.GOENV, VERIF_REPO=checklib.REPO)
+    p = subprocess.run([binp, "C09", "-tool", "skeleton", GEN], env=env, stdout=subprocess.PIPE,
+                       stderr=subprocess.STDOUT, text=True, timeout=300)
+    if p.returncode != 0 or not os.path.exists(GEN):
+        raise checklib.CheckError("C09 skeleton extraction failed: " + p.stdout[-500:])
+    facts, notes = {}, []
+    for l in p.stdout.splitlines():
+        f = l.split()
+        if l.startswith("fact ") and len(f) == 3:
+            facts[f[1]] = int(f[2])
+        elif l.startswith("note: "):
+            notes.append(l[6:])
+    return facts, notes
+
+
 def run(ctx):
     thorough = ctx.tier == "thorough"
+    ctx.log("go: building harness against", checklib.REPO)
+    # thorough: the harness (and the pool) is built with the race detector; a reported race ends the
+    # process inside the case (CRASH with the report) and is a violation
+    binp0 = checklib.go_build(ctx, race=thorough)
+    facts, fnotes = extract(ctx, binp0)
+    refuted = sorted(k for k, v in facts.items() if v == 0)
+    unknown = sorted(k for k, v in facts.items() if v == 2)
+    ctx.coverage["skeleton_facts"] = {"established": sorted(k for k, v in facts.items() if v == 1),
+                                      "refuted": refuted, "not_established": unknown, "notes": fnotes}
+    if unknown:
+        # three-valued policy: not a violation; a note and a larger search in this run
+        ctx.notes.append("skeleton facts not established from the source (search amplified x3): " + ", ".join(unknown))
+        checklib.GOENV["C09_AMPLIFY"] = "3"
+    if refuted:
+        ctx.log("skeleton facts REFUTED:", refuted)
     ctx.log("lean: building", LEAN_MODULES)
     lres = checklib.lean_check(ctx, LEAN_MODULES, leanchecker=thorough)
     cov = ctx.coverage
     cov["obligations"] = lres["obligations"]
     cov["discharged"] = lres["discharged"]
-    cov["checker_cmd"] = lres.get("checker_cmd", "")
+    cov["checker_cmd"] = "harness C09 -tool skeleton lean/Ecal/Gen/C09.lean && " + lres.get("checker_cmd", "")
     cov["theorems"] = lres["theorems"]
     cov["axioms_used"] = lres["axioms"]
     cov["trusted_base"] = checklib.BASE_TRUSTED + TRUSTED
@@ -119,10 +172,7 @@ def run(ctx):
     if proof_broken:
         ctx.log("LEAN FAILURES:", lres["failures"])
 
-    ctx.log("go: building harness against", checklib.REPO)
-    # thorough: the harness (and the pool) is built with the race detector; a reported race ends the
-    # process inside the case (CRASH with the report) and is a violation
-    binp = checklib.go_build(ctx, race=thorough)
+    binp = binp0
     if thorough:
         checklib.GOENV["GORACE"] = "halt_on_error=1"
     cov["race_detector"] = thorough
@@ -135,11 +185,19 @@ def run(ctx):
     lines = {}
     for i, p in cases.items():
         g = gores.get(i, "")
-        if " | " in g:
+        if " | " in g and g.startswith("added="):
             lines[i] = p + " | " + g.split(" | ", 1)[1]
     model = checklib.run_driver(ctx, "C09", lines, shards=16) if lines else {}
 
     bad, validated, events, nontrivial = [], 0, 0, set()
+    windows = {"hit": 0, "missed": 0}
+    for i in cases:
+        w = parse_monitors(gores.get(i, "").split(" | ", 1)[0]).get("win")
+        if w == "1":
+            windows["hit"] += 1
+        elif w == "0":
+            windows["missed"] += 1
+    cov["directed_windows"] = windows  # directed schedules that did / did not hit the intended window (load)
     for i in sorted(cases):
         g = gores.get(i, "MISSING-RESULT")
         m, attrs = model.get(i, ("MISSING-MODEL-RESULT", {}))
@@ -189,7 +247,8 @@ def run(ctx):
         if reported == 3:
             break
     if proof_broken and not bad:
-        rp = checklib.write_replay(ctx, "obligation", {"failures": lres["failures"], "theorems": lres["theorems"]},
+        rp = checklib.write_replay(ctx, "obligation", {"failures": lres["failures"], "theorems": lres["theorems"],
+                                                        "skeleton_facts_refuted": refuted},
                                    "all property theorems check with allowed axioms", "see failures",
                                    "cd lean && lake build " + " ".join(LEAN_MODULES),
                                    theorem="; ".join(lres["failures"])[:500])
